@@ -1,5 +1,5 @@
 (* C09 — --verify accepts exactly the chains whose merkle roots and prev-hash links hold. Pinned statements only: each theorem is closed by `exact` of a lemma proved in theories/. *)
-From RBP Require Import Bytes Hashes Wire Block BlockP Render Index IndexP Model ModelP StoreP CsvP CbP FrameP.
+From RBP Require Import Bytes Hashes Wire Block BlockP Render Index IndexP Model ModelP StoreP CsvP CbP FrameP VerifyFrame.
 From RBP Require Drive Merkle Utxo Stats OutProto Reader Published Misc.
 
 Theorem C09_merkle_loop_is_spec :
@@ -50,6 +50,14 @@ Theorem C09_witness_frame :
   forall (t : atx) (w : option (list (cs_width * list (cs_width * bytes)))), parsed_tx (with_witness t w) = parsed_tx t /\ ser_tx_stripped (with_witness t w) = ser_tx_stripped t /\ txid (parsed_tx (with_witness t w)) = txid (parsed_tx t).
 Proof. exact witness_frame. Qed.
 
+Theorem C09_verdict_depends_on_txids_header_hash_only :
+  forall (c : coin) (idx : hmap) (b1 b2 : eblock) (h : N), map x_id (y_txs b1) = map x_id (y_txs b2) -> b_header (y_blk b1) = b_header (y_blk b2) -> y_hash b1 = y_hash b2 -> verify_block c idx b1 h = verify_block c idx b2 h.
+Proof. exact verify_block_frame. Qed.
+
+Theorem C09_verdict_ignores_stored_size :
+  forall (c : coin) (idx : hmap) (b : eblock) (h sz : N), verify_block c idx (with_size b sz) h = verify_block c idx b h.
+Proof. exact verify_ignores_stored_size. Qed.
+
 Print Assumptions C09_merkle_loop_is_spec.
 Print Assumptions C09_verify_iff.
 Print Assumptions C09_merkle_checked_first.
@@ -62,3 +70,5 @@ Print Assumptions C09_bad_genesis_rejected.
 Print Assumptions C09_changed_root_rejected.
 Print Assumptions C09_witness_not_covered.
 Print Assumptions C09_witness_frame.
+Print Assumptions C09_verdict_depends_on_txids_header_hash_only.
+Print Assumptions C09_verdict_ignores_stored_size.
